@@ -34,20 +34,20 @@ const (
 )
 
 var aliases = map[string]string{
-	pKeeper:       "keeper",
-	pTypes:        "types",
-	pAlliance:     "alliance",
-	pBindings:     "bindings",
-	pBindTypes:    "bindtypes",
-	pMigV4:        "migv4",
-	pMigV5:        "migv5",
-	pBank:         "bank",
-	pBankKeeper:   "bankkeeper",
-	pBankTypes:    "banktypes",
-	pApp:          "app",
-	pStakingKeep:  "stakingkeeper",
-	pStakingTypes: "stakingtypes",
-	"github.com/cosmos/cosmos-sdk/types":               "sdk",
+	pKeeper:                              "keeper",
+	pTypes:                               "types",
+	pAlliance:                            "alliance",
+	pBindings:                            "bindings",
+	pBindTypes:                           "bindtypes",
+	pMigV4:                               "migv4",
+	pMigV5:                               "migv5",
+	pBank:                                "bank",
+	pBankKeeper:                          "bankkeeper",
+	pBankTypes:                           "banktypes",
+	pApp:                                 "app",
+	pStakingKeep:                         "stakingkeeper",
+	pStakingTypes:                        "stakingtypes",
+	"github.com/cosmos/cosmos-sdk/types": "sdk",
 	"github.com/cosmos/cosmos-sdk/types/address":       "address",
 	"github.com/cosmos/cosmos-sdk/types/query":         "query",
 	"github.com/cosmos/cosmos-sdk/types/errors":        "sdkerrors",
